@@ -38,7 +38,7 @@ class Built:
 
 
 def arg_pattern(rng, depth=1, meta=0.4, notation=0.3, syms=SYMS):
-    e = rp.rand_term(rng, rng.randint(0, depth), meta=rng.random() < meta, notation=notation, substs=False, syms=syms, constrained=0.0,
+    e = rp.rand_term(rng, rng.randint(0, depth), meta=rng.random() < meta, notation=notation, substs=rng.random() < 0.25, syms=syms, constrained=0.0,
                      evs=(0, 1, 2), svs=(0, 1), mvs=(0, 1, 2))
     # mu must be positive for the machine; the toolkit does not check -> keep generated arguments well-formed
     if not _wf(e):
@@ -56,6 +56,15 @@ def _wf(e):
         return _wf(e[2])
     if k == 'mu':
         return _wf(e[2]) and tb.d_positive(e[2], e[1])
+    # deferred substitution: on a meta base, not redundant (the machine refuses those), plug without binders (no capture business here)
+    if e[1][0] not in ('mv', 'es', 'ss'):
+        return False
+    if k == 'es' and (e[3] == tb.ev(e[2]) or tb.d_e_fresh(e[1], e[2])):
+        return False
+    if k == 'ss' and (e[3] == tb.sv(e[2]) or tb.d_s_fresh(e[1], e[2])):
+        return False
+    if '(ex ' in tb.show(e[3]) or '(mu ' in tb.show(e[3]):
+        return False
     return _wf(e[1]) and _wf(e[3])
 
 
@@ -148,6 +157,21 @@ def random_module(rng: random.Random, max_claims=6, with_imports=True, syms=SYMS
                 add(mod.prop3(), 'prop3')
         except AssertionError:
             pass
+    # a schema instantiated through a map whose keys are inserted in shuffled order
+    if rng.random() < 0.5:
+        try:
+            base, bd = rng.choice(((mod.prop1(), 'prop1'), (mod.prop2(), 'prop2'), (prop.imp_trans(), 'imp_trans'), (prop.absurd(), 'absurd'), (prop.prop2_inst(), 'prop2_inst')))
+            keys = sorted(base.conc.metavars())
+            rng.shuffle(keys)
+            if rng.random() < 0.3:
+                keys = keys[:-1] or keys
+            delta = {i: p_() for i in keys}
+            if len(keys) >= 2 and keys != sorted(keys):
+                tags.add('unsorted_instantiation_keys')
+            add(mod.dynamic_inst(base, delta), f'dynamic_inst({bd}, keys={keys})')
+            tags.add('dynamic_inst')
+        except AssertionError:
+            pass
     if 'mp_axioms' in tags:
         i = len(own_axioms) - 2
         try:
@@ -170,7 +194,11 @@ def random_module(rng: random.Random, max_claims=6, with_imports=True, syms=SYMS
             elif r < 0.45:
                 ids = sorted(th.conc.metavars())
                 if ids:
-                    delta = {i: p_() for i in ids if rng.random() < 0.7}
+                    keys = [i for i in ids if rng.random() < 0.7]
+                    rng.shuffle(keys)          # insertion order of the map is arbitrary, not ascending
+                    delta = {i: p_() for i in keys}
+                    if len(keys) >= 2 and keys != sorted(keys):
+                        tags.add('unsorted_instantiation_keys')
                     if rng.random() < 0.15:
                         delta = {}
                     if rng.random() < 0.15 and ids:
@@ -189,7 +217,9 @@ def random_module(rng: random.Random, max_claims=6, with_imports=True, syms=SYMS
                     delta = {ids[0]: P.MetaVar(ids[0])}
                     tags.add('identity_instantiation')
                 else:
-                    delta = {i: p_() for i in ids if rng.random() < 0.8} or {ids[0]: p_()}
+                    keys = [i for i in ids if rng.random() < 0.8] or [ids[0]]
+                    rng.shuffle(keys)
+                    delta = {i: p_() for i in keys}
                 add(mod.instantiate(th, delta), f'instantiate({d}, keys={sorted(delta)})')
                 tags.add('static_instantiate')
             elif r < 0.6:
